@@ -114,6 +114,8 @@ pub enum B {
     Sets(u8),
     /// a one-shot stream, with a `Get` pipelined behind it
     OnceGet,
+    /// the client hangs up (also while it is subscribed)
+    Hangup,
 }
 
 #[derive(Clone, Debug)]
@@ -128,7 +130,7 @@ pub struct StateScen {
 impl StateScen {
     pub fn to_json(&self) -> Value {
         json!({"state_service": true, "smol": self.smol, "max_conns": self.max_conns, "max_events": self.max_events, "delay_polls": self.delay_polls,
-            "bursts": self.bursts.iter().map(|b| match b { B::Watch => json!("Watch"), B::Get => json!("Get"), B::Sets(n) => json!(n), B::OnceGet => json!("OnceGet") }).collect::<Vec<_>>()})
+            "bursts": self.bursts.iter().map(|b| match b { B::Watch => json!("Watch"), B::Get => json!("Get"), B::Sets(n) => json!(n), B::OnceGet => json!("OnceGet"), B::Hangup => json!("Hangup") }).collect::<Vec<_>>()})
     }
     pub fn from_json(v: &Value) -> Option<StateScen> {
         Some(StateScen {
@@ -142,6 +144,7 @@ impl StateScen {
                 .map(|b| match b.as_str() {
                     Some("Watch") => B::Watch,
                     Some("Get") => B::Get,
+                    Some("Hangup") => B::Hangup,
                     Some(_) => B::OnceGet,
                     None => B::Sets(b.as_u64().unwrap_or(1) as u8),
                 })
@@ -155,6 +158,7 @@ struct ConnS {
     /// what this connection has asked for, in order
     asked: Vec<Asked>,
     watching: bool,
+    gone: bool,
 }
 #[derive(Clone, Debug)]
 enum Asked {
@@ -193,7 +197,7 @@ impl Harness for StateScen {
         let mut fut: Pin<Box<dyn Future<Output = zlink_core::Result<()>>>> = if self.smol { Box::pin(Server::new(listener.clone(), SmolSvc::new(log.clone())).run()) } else { Box::pin(Server::new(listener.clone(), TokioSvc::new(log.clone())).run()) };
         let mut task = Task::new();
         let n = 1 + cx.choose(self.max_conns, "connections-1");
-        let mut conns: Vec<ConnS> = (0..n).map(|i| ConnS { wire: Wire::new(i, Some(cx.clone())), asked: vec![], watching: false }).collect();
+        let mut conns: Vec<ConnS> = (0..n).map(|i| ConnS { wire: Wire::new(i, Some(cx.clone())), asked: vec![], watching: false, gone: false }).collect();
         for c in &conns {
             listener.connect(c.wire.clone());
         }
@@ -214,8 +218,12 @@ impl Harness for StateScen {
             // enabled: every burst on every connection that is not parked in a subscription; stop
             let mut en: Vec<(usize, B)> = Vec::new();
             for (i, c) in conns.iter().enumerate() {
-                if !c.watching {
-                    for b in &self.bursts {
+                if c.gone {
+                    continue;
+                }
+                for b in &self.bursts {
+                    // a subscribed client sends nothing more; it may hang up
+                    if !c.watching || *b == B::Hangup {
                         en.push((i, *b));
                     }
                 }
@@ -235,6 +243,26 @@ impl Harness for StateScen {
                 bytes.push(0);
             };
             match b {
+                B::Hangup => {
+                    cx.log(|| format!("event: conn {i} hangs up{}", if conns[i].watching { " (subscribed)" } else { "" }));
+                    if conns[i].watching {
+                        cx.goal("subscriber-hangs-up");
+                    }
+                    conns[i].gone = true;
+                    conns[i].wire.close();
+                    // its writes fail from now on
+                    {
+                        let mut w = conns[i].wire.0.borrow_mut();
+                        let k = w.write_attempts;
+                        w.write_fail_from = Some(k);
+                    }
+                    if self.delay_polls && events < self.max_events && cx.deviate("delay-server-poll") {
+                        cx.goal("several-events-before-a-poll");
+                        continue;
+                    }
+                    settle!();
+                    continue;
+                }
                 B::Watch => {
                     push(json!({"method": "s.Watch", "more": true}), &mut bytes);
                     conns[i].asked.push(Asked::Watch);
@@ -250,6 +278,9 @@ impl Harness for StateScen {
                         next_v += 1;
                         push(json!({"method": "s.Set", "parameters": {"v": next_v}}), &mut bytes);
                         conns[i].asked.push(Asked::Set(next_v));
+                    }
+                    if conns.iter().any(|c| c.gone && c.watching) && conns.iter().any(|c| !c.gone && c.watching) {
+                        cx.goal("state-changes-after-one-of-several-subscribers-hung-up");
                     }
                     if conns.iter().any(|c| c.watching) {
                         cx.goal("state-changes-while-subscribed");
@@ -285,6 +316,10 @@ impl Harness for StateScen {
         // connection that is does not matter for the rule: every watcher's items are judged against
         // the sets handled after SOME subscription point, the earliest one being the weakest demand
         for (i, c) in conns.iter().enumerate() {
+            if c.gone {
+                // a client that hung up is owed nothing; the others are owed everything
+                continue;
+            }
             let out = match frames_of(&c.wire) {
                 Ok(o) => o,
                 Err(e) => return Verdict::fail("server:output-not-json", what(&format!("conn {i}: {e}"))),
@@ -357,9 +392,10 @@ impl Harness for StateScen {
                 h.u(f["parameters"]["v"].as_u64().unwrap_or(0));
             }
         }
-        // every call that arrived was handed to the service
-        let asked: usize = conns.iter().map(|c| c.asked.len()).sum();
-        if log.len() != asked {
+        // every call that arrived from a client that is still there was handed to the service
+        let asked: usize = conns.iter().filter(|c| !c.gone).map(|c| c.asked.len()).sum();
+        let asked_all: usize = conns.iter().map(|c| c.asked.len()).sum();
+        if log.len() < asked || log.len() > asked_all {
             return Verdict::fail("server:reply-missing-at-quiescence", what(&format!("{asked} calls arrived, the server is idle, the service was handed {}", log.len())));
         }
         cx.state(H64::new().u(log.len() as u64).u(sets.len() as u64).get());
